@@ -272,6 +272,28 @@ def reopen (S : Sem β σ ε H) (lo hi arg : Nat) (recCommits : List Nat) (d : D
     -- loadCurrentBlock; recoverStore
     replayAll S recCommits arg (List.range' (d.st.cur + lo) ((d.blk.cur + hi) - (d.st.cur + lo))) (ledgerOf d)
 
+/-- The data directory if the process dies DURING `reopen d`, while `recoverStore` re-commits the first block of its
+replay loop: `t` bytes of the hash-file re-append and the first `k` commits of the iteration (in `recCommits` order) are
+durable. A reopen that fails its checks or replays nothing has no durable step and leaves `d` as it is. (In every state
+reachable from a consistent ledger by crashes the state store lags the block store by at most one block — part of what
+`C01_recover_twice` proves — so the first iteration is the only one.) -/
+def reopenCrash (S : Sem β σ ε H) (lo hi arg : Nat) (recCommits : List Nat) (d : Disk β σ ε H) (k t : Nat) :
+    Disk β σ ε H :=
+  if d.st.btree.size > 0 ∧ d.st.btree.size ≠ d.st.cur + 1 then d
+  else if d.st.btree.hashes.length ≠ countBit d.st.btree.size then d
+  else if d.st.stree.size > 0 ∧ d.st.stree.size ≠ d.st.cur + 1 then d
+  else if d.st.stree.hashes.length ≠ countBit d.st.stree.size then d
+  else
+    match List.range' (d.st.cur + lo) ((d.blk.cur + hi) - (d.st.cur + lo)) with
+    | [] => d
+    | i :: _ =>
+      match getAt d.blk.blocks (i + arg) with
+      | none => d
+      | some b =>
+        match fill S (ledgerOf d) b with
+        | none => d
+        | some F => (recCommits.take k).foldl (commitStep F) { d with file := fileAfter (ledgerOf d) (F.data.take t) }
+
 /-- the first-run branch of `InitLedgerStoreWithGenesisBlock`: empty stores, then the genesis block is executed and
 submitted like any block (no header / block-root check at height 0) -/
 def emptyLedger (s0 : σ) : Ledger β σ ε H :=
